@@ -477,9 +477,22 @@ func (in *Interp) assertTerm(c *Term, msg, site string) {
 		case Sat:
 			in.report("assert", msg, site, in.lastModel)
 		case Unknown:
-			in.path.inexact = true
-			in.path.unknowns = append(in.path.unknowns, "assert "+msg+": solver unknown")
-			in.unknownAsserts++
+			// second opinion from fresh one-shot solvers with a longer limit
+			switch in.solver.Resolve(nc, 120) {
+			case Unsat:
+				in.resolved++
+			case Sat:
+				// take the model from the incremental solver if it can produce one now; otherwise report without values
+				if r2 := in.checkSat(nc); r2 == Sat {
+					in.report("assert", msg, site, in.lastModel)
+				} else {
+					in.report("assert", msg+" (counterexample found by one-shot solver; no model values)", site, map[string]uint64{})
+				}
+			default:
+				in.path.inexact = true
+				in.path.unknowns = append(in.path.unknowns, "assert "+msg+": solver unknown")
+				in.unknownAsserts++
+			}
 		}
 	}
 	in.assume(c)
